@@ -7,7 +7,7 @@ CONSTANTS
   Kinds = {1}
   Toggles = FALSE
   Srvs = {1, 2}
-  Ots <- OtsTwo
+  Ots <- OtsOne
   Coes <- CoesOne
 INVARIANT Inv_NothingTwice
 INVARIANT Inv_NothingLost
